@@ -103,3 +103,21 @@ Theorem C09_translated_uniquifier_flags_consistent : forall all d,
   uniq_wf (wrap all d) (Z.eqb (Z.of_nat (length all)) (Z.of_nat (length (fst (uniq_ids all))))).
 Proof. exact wf_of_init. Qed.
 Print Assumptions C09_translated_uniquifier_flags_consistent.
+
+(* ---- xitorch/_core/editable_module.py as translated from /repo on this run (Gen/PyEditable.v): the search loop of
+   _get_unique_params_idxs returns the model's first-occurrence positions for EVERY parameter list; with its groups the scatter of
+   setuniqueparams is the model's map_unique and setuniqueparams(getuniqueparams()) is the identity, for every aliasing pattern
+   of up to 7 parameters (exhaustive, the bound is part of the statement) ---- *)
+From XV Require Import Gen.PyEditable Proofs.PyEditableProofs.
+
+Theorem C09_translated_unique_params_idxs_is_model : forall (f : nat -> obj),
+  (forall i j, obj_id (f i) = obj_id (f j) -> i = j) -> forall ids,
+  exists groups,
+    editable_unique_params_idxs (map f ids) = Ok (map Z.of_nat (fst (uniq_go ids 0 [] 0)), groups) /\
+    length groups = length (fst (uniq_go ids 0 [] 0)).
+Proof. exact editable_unique_params_idxs_refines. Qed.
+Print Assumptions C09_translated_unique_params_idxs_is_model.
+
+Theorem C09_translated_setuniqueparams_upto_7 : forall pat, In pat (all_patterns 7) -> pattern_ok pat = true.
+Proof. exact setuniqueparams_roundtrip_upto_7. Qed.
+Print Assumptions C09_translated_setuniqueparams_upto_7.
